@@ -169,7 +169,7 @@ pub fn extract(src: &str) -> String {
                                         let fwd_same = format!("self.inner.{name}({})", args.join(","));
                                         let cls = if body == format!("{{{fwd_same}}}") || body == format!("{{{fwd_same}?;Ok(())}}") {
                                             "forward-same-args"
-                                        } else if body.contains(&format!("T::{name}(")) && body.contains("Arc::new(inner)") && body.contains("?;") {
+                                        } else if body == format!("{{letinner=T::{name}({})?;Ok(Self{{inner:Arc::new(inner)}})}}", args.join(",")) {
                                             "wrap-result-in-arc"
                                         } else if body == "{Self{inner:Arc::new(inner)}}" {
                                             "wrap-arg-in-arc"
